@@ -374,7 +374,7 @@ class RefZ3Domain:
         return RZ(self, t=term)
 
     def const(self, c):
-        return RZ(self, k=Fraction(c))
+        return RZ(self, k=self.pool.canon(c if isinstance(c, (int, Fraction)) else float(c)))
 
     def _constify(self, a):
         """a term that simplifies to a numeral is a constant (CasADi folds e.g. (t0+1/2)-t0)"""
